@@ -152,7 +152,9 @@ class ConformationContainer:
             a set of bonded atom groups
         """
         assert self.parameters is not None
-        res: Set[Group] = set()
+        # a dict is used as an insertion-ordered set, so that the result does
+        # not depend on object addresses
+        res: Dict[Group, None] = {}
         for bond_atom in atom.bonded_atoms:
             # skip the original atom
             if bond_atom == original_atom:
@@ -161,11 +163,11 @@ class ConformationContainer:
             if (bond_atom.group and bond_atom.group.titratable
                     and num_bonds
                     <= self.parameters.coupling_max_number_of_bonds):
-                res.add(bond_atom.group)
+                res[bond_atom.group] = None
             # check for titratable groups bonded to this atom
             if num_bonds < self.parameters.coupling_max_number_of_bonds:
-                res |= self.find_bonded_titratable_groups(
-                    bond_atom, num_bonds+1, original_atom)
+                res.update(self.find_bonded_titratable_groups(
+                    bond_atom, num_bonds+1, original_atom))
         return res
 
     def setup_and_add_group(self, group: Optional[Group]):
@@ -309,7 +311,7 @@ class ConformationContainer:
         self,
         groups: Iterable[Group],
         get_coupled_groups: CallableGroupToGroups,
-    ) -> Iterator[Set[Group]]:
+    ) -> Iterator[List[Group]]:
         """A generator that yields covalently coupled systems.
 
         Args:
@@ -318,18 +320,22 @@ class ConformationContainer:
         Yields:
             covalently coupled systems
         """
-        groups = set(groups)
-        while len(groups) > 0:
+        # dicts are used as insertion-ordered sets, so that the order of the
+        # systems and of the groups within a system follows the order of
+        # `groups` and does not depend on object addresses
+        remaining: Dict[Group, None] = dict.fromkeys(groups)
+        while len(remaining) > 0:
             # extract a system of coupled groups ...
-            system: Set[Group] = set()
+            system: Dict[Group, None] = {}
             self.get_a_coupled_system_of_groups(
-                groups.pop(), system, get_coupled_groups)
+                next(iter(remaining)), system, get_coupled_groups)
             # ... and remove them from the list
-            groups -= system
-            yield system
+            for group in system:
+                remaining.pop(group, None)
+            yield list(system)
 
     def get_a_coupled_system_of_groups(self, new_group: Group,
-                                       coupled_groups: Set[Group],
+                                       coupled_groups: Dict[Group, None],
                                        get_coupled_groups: CallableGroupToGroups):
         """Set up coupled systems of groups.
 
@@ -338,7 +344,7 @@ class ConformationContainer:
             coupled_groups:  existing coupled groups
             get_coupled_groups:  TODO - I don't know what this
         """
-        coupled_groups.add(new_group)
+        coupled_groups[new_group] = None
         for coupled_group in get_coupled_groups(new_group):
             if coupled_group not in coupled_groups:
                 self.get_a_coupled_system_of_groups(coupled_group,
